@@ -261,6 +261,57 @@ fn value_part(run: &Run, thorough: bool) -> Acc {
         .reduce(Acc::new, Acc::merge)
 }
 
+/// the argument reached through every kind of singular-query segment (name, bracketed name, non-negative and
+/// negative index, in range and out of range, nested), in every parameter position
+fn routes_part(run: &Run, thorough: bool) -> Acc {
+    let uni = compare::universe(thorough);
+    // cell: {"t": ["pad", v], "o": {"n": [v]}} ; for "nothing": {"t": ["pad"], "o": {"n": []}}
+    let cells: Vec<Value> = uni
+        .iter()
+        .map(|v| match v {
+            Some(v) => json!({"t": ["pad", v], "o": {"n": [v]}}),
+            None => json!({"t": ["pad"], "o": {"n": []}}),
+        })
+        .collect();
+    let wrap = |v: Vec<Value>| json!({"p": ["b", "a.*", "a"], "c": v});
+    let doc = wrap(cells.clone());
+    let dc = DocCtx::new(&doc);
+    let args = ["@.t[1]", "@.t[-1]", "@.t[-2]", "@.t[-3]", "@.t[2]", "@['t'][-1]", "@.o.n[0]", "@.o.n[-1]", "@.o['n'][-1]", "@.o.n[-2]", "@[0]", "@[-1]", "$.c[0].t[-1]", "$.c[-1].t[-1]", "$.p[-1]", "$.p[-2]", "$.p[1]", "$.p[-4]"];
+    let mut qs: Vec<String> = vec![];
+    for a in args {
+        for n in ["0", "1", "2", "3", "5"] {
+            for op in ["==", "!=", "<", ">="] {
+                qs.push(format!("$.c[?length({}){}{}]", a, op, n));
+                qs.push(format!("$.c[?count({}){}{}]", a, op, n));
+            }
+        }
+        qs.push(format!("$.c[?value({})==@.t[1]]", a));
+        qs.push(format!("$.c[?length({})==length(@.t[1])]", a));
+        qs.push(format!("$.c[?length(value({}))==1]", a));
+        for f in ["match", "search"] {
+            qs.push(format!("$.c[?{}({},'a.*')]", f, a));
+            qs.push(format!("$.c[?{}({},'.')]", f, a));
+            qs.push(format!("$.c[?!{}({},'a')]", f, a));
+            qs.push(format!("$.c[?{}('a',{})]", f, a));
+            qs.push(format!("$.c[?{}('ab',{})]", f, a));
+            qs.push(format!("$.c[?{}(@.t[1],{})]", f, a));
+            qs.push(format!("$.c[?{}({},$.p[-2])]", f, a));
+            qs.push(format!("$.c[?{}(value({}),$.p[2])]", f, a));
+        }
+    }
+    qs.par_iter()
+        .map(|q| {
+            let mut acc = Acc::new();
+            let ast = parse(q);
+            if let Some(ids) = packed_on(run, &mut acc, q, &ast, &cells, &wrap, "arguments reached through singular-query segments", &dc) {
+                acc.nontrivial += ids.len() as u64;
+                acc.sample(|| json!({"query": q, "cells": cells.len(), "kept": ids.len()}));
+            }
+            acc
+        })
+        .reduce(Acc::new, Acc::merge)
+}
+
 pub fn run(tier: &str) -> i32 {
     let run = Run::new("C10", tier);
     let th = run.thorough();
@@ -307,11 +358,11 @@ pub fn run(tier: &str) -> i32 {
     }
     let a = regex_part(&run, size);
     let b = value_part(&run, th);
-    let mut acc = a.merge(b);
+    let mut acc = a.merge(b).merge(routes_part(&run, th));
     acc.bump("oracle_cross_checks_against_regex_crate", checked);
     run.finish(
         acc,
-        "regex: one cell = (pattern, subject, function, argument form): every pattern string of AST size <= s over {a, b, ., [ab], [^a], \\., ^, $, group, |, *, +, ?} plus an invalid set, x every subject over {a,b} up to length 3 plus special and non-string subjects, x match/search x pattern from the document / single-quoted literal / negated double-quoted literal; values: one cell = (query over length/count/value, value of the universe); oracle = reference model (backtracking matcher validated against the regex crate on the same universe at start-up); non-trivial = cells where the filter is true",
+        "regex: one cell = (pattern, subject, function, argument form): every pattern string of AST size <= s over {a, b, ., [ab], [^a], \\., ^, $, group, |, *, +, ?} plus an invalid set, x every subject over {a,b} up to length 3 plus special and non-string subjects, x match/search x pattern from the document / single-quoted literal / negated double-quoted literal; values: one cell = (query over length/count/value, value of the universe); routes: one cell = (function, parameter position, singular-query argument over names / bracketed names / positive, negative and out-of-range indices, value); oracle = reference model (backtracking matcher validated against the regex crate on the same universe at start-up); non-trivial = cells where the filter is true",
         &[
             "`^` and `$` are assertions (the dialect of the regex crate), not I-Regexp literals; subjects contain no line terminators",
             "constructs on which I-Regexp and the regex crate differ (nested quantifiers, `{` forms, class set operations) are outside the universe",
